@@ -6,7 +6,8 @@
 import json, os, shutil, subprocess, sys
 from concurrent.futures import ThreadPoolExecutor
 
-SRC = "/tmp/seedwt/out"
+SRC = os.environ.get("SEEDED_SRC", "/tmp/seedwt/out")
+PREFIX = os.environ.get("SEEDED_PREFIX", "")
 DST = "/verif/seeded"
 CLEAN_BIN = "/verif/.cache/cli-target/debug/seed"
 ENV = dict(os.environ, CARGO_NET_OFFLINE="true", RUST_BACKTRACE="0")
@@ -27,7 +28,7 @@ def work(job):
     results = []
     for pid, mut in items:
         d = f"{SRC}/{pid}/{mut}"
-        res = {"id": f"{pid}-{mut}", "property": pid}
+        res = {"id": f"{PREFIX}{pid}-{mut}", "property": pid}
         try:
             sh(["git", "checkout", "--", "."], cwd=wt)
             sh(["git", "clean", "-fdq", "--", "src", "tests"], cwd=wt)
@@ -60,7 +61,7 @@ def work(job):
                 res["status"] = "demo does not distinguish the change"
                 results.append(res); continue
             res["status"] = "confirmed"
-            out = f"{DST}/{pid}-{mut}"
+            out = f"{DST}/{PREFIX}{pid}-{mut}"
             os.makedirs(out, exist_ok=True)
             shutil.copy(f"{d}/patch.diff", f"{out}/patch.diff")
             shutil.copy(f"{d}/demo.sd", f"{out}/demo.sd")
@@ -75,6 +76,7 @@ def work(job):
             meta_out = {
                 "property": pid,
                 "mutant": mut,
+                "round": PREFIX.rstrip("-") or "r1",
                 "summary": meta.get("summary", ""),
                 "needs": meta.get("needs", ""),
                 "files_changed": meta.get("files_changed", []),
@@ -101,7 +103,7 @@ def main():
         for rs in ex.map(work, jobs):
             allres.extend(rs)
     allres.sort(key=lambda r: r["id"])
-    json.dump(allres, open("/verif/seeded/verification.json", "w"), indent=1, ensure_ascii=False)
+    json.dump(allres, open(f"/verif/seeded/verification{PREFIX.rstrip('-')}.json", "w"), indent=1, ensure_ascii=False)
     for r in allres:
         print(r["id"], r["status"])
     for s in range(nslots):
